@@ -39,6 +39,8 @@ MeanCase(fl, ty, style, ki, li, data, first) ==
     [op |-> "mean.ci", fl |-> fl, ty |-> ty, style |-> style, conf |-> Conf(ki, li), li |-> li,
      data |-> data, first |-> first, grp |-> (IF Part \in {"c10seq", "c10extra"} THEN "c10" ELSE Part)]
 
+TraitStyle(i) == <<"ops_mean", "ops", "ci", "ops_append">>[(i % 4) + 1]
+
 VARIABLE done
 Init == done = FALSE
 
@@ -51,9 +53,11 @@ C10Part(d) ==
            da == RandSample(i, n, 0, 0)
            dp == PosSample(i, n, 0)
            db == RandSample(900 + i, Pick(i, 12, 2, 60), 30, 0) IN
-       /\ AllConfs(LAMBDA ki, li, f : Emit(MeanCase("arith", ty, "ci", ki, li, da, f)))
-       /\ AllConfs(LAMBDA ki, li, f : Emit(MeanCase("geo", ty, "ci", ki, li, dp, f)))
-       /\ AllConfs(LAMBDA ki, li, f : Emit(MeanCase("harm", ty, "ci", ki, li, dp, f)))
+       \* (the entry point rotates with the sample: the inherent one-shot call, the StatisticsOps trait's one-shot call, and
+       \*  a state fed and queried through the trait only - what code generic over `S: StatisticsOps<F>` reaches)
+       /\ AllConfs(LAMBDA ki, li, f : Emit(MeanCase("arith", ty, TraitStyle(i + 2), ki, li, da, f)))
+       /\ AllConfs(LAMBDA ki, li, f : Emit(MeanCase("geo", ty, TraitStyle(i + 1), ki, li, dp, f)))
+       /\ AllConfs(LAMBDA ki, li, f : Emit(MeanCase("harm", ty, TraitStyle(i), ki, li, dp, f)))
        /\ AllConfs(LAMBDA ki, li, f : Emit(MeanCase("unpaired", ty, "ci", ki, li, da, f) @@ [datab |-> db]))
        /\ AllConfs(LAMBDA ki, li, f : Emit(MeanCase("paired", ty, "ci", ki, li,
                       [rle |-> [j \in 1..Pick(i, 13, 2, 40) |-> <<V(Pick(i, 200 + j, -300, 300), 0), 1>>], order |-> "asc"], f)
